@@ -897,7 +897,8 @@ func (m *MutableOverlayWorld) AddTag(id b6.FeatureID, tag b6.Tag) error {
 			return fmt.Errorf("No feature with ID %s", id)
 		}
 		if indexedAfter {
-			f = NewFeatureFromWorld(base)
+			f = NewFeatureFromWorld(m.tags.WrapFeature(base))
+			delete(m.tags, id)
 			f.ModifyOrAddTag(tag)
 			m.features.AddFeature(f)
 			m.references.AddFeature(f)
@@ -922,9 +923,11 @@ func (m *MutableOverlayWorld) RemoveTag(id b6.FeatureID, key string) error {
 		if base == nil {
 			return fmt.Errorf("No feature with ID %s", id)
 		}
-		if tag := base.Get(key); tag.IsValid() {
+		modified := m.tags.WrapFeature(base)
+		if tag := modified.Get(key); tag.IsValid() {
 			if _, indexed := b6.TokenForTag(tag); indexed {
-				f = NewFeatureFromWorld(base)
+				f = NewFeatureFromWorld(modified)
+				delete(m.tags, id)
 				f.RemoveTag(key)
 				m.features.AddFeature(f)
 				m.references.AddFeature(f)
